@@ -504,6 +504,9 @@ inductive Frag2 (B : Builtins) : Ast → Prop
   | match_ (sp : Span) (s : Ast) (cases : List MCase) : Frag2 B s →
       (∀ sp' p b, MCase.mk sp' p b ∈ cases → Frag2 B b) →                             -- every arm
       (∀ sp' sp1 sp2 op e b, MCase.mk sp' (.cmp sp1 sp2 op e) b ∈ cases → Frag2 B e) →  -- every comparison pattern
+      (∀ sp' sp1 t name b, MCase.mk sp' (.type sp1 t name) b ∈ cases → (typeByName name).isSome) →
+        -- a type pattern names a type of the type table (`list`, `object`, `null` do not: as identifiers
+        -- they are variables, unbound unless the caller binds them)
       Frag2 B (.match_ sp s cases)
   | member (sp : Span) (p : Prim) (chain : List MOp) :
       (∀ sp' e, p = .parens sp' e → Frag2 B e) →
